@@ -24,7 +24,9 @@ class LookupFsDev(fs.fsDev):
             if st is None or any(
                 f(st.st_mode) for f in (stat.S_ISREG, stat.S_ISDIR, stat.S_ISFIFO)
             ):
-                kwds["strict"] = True
+                # nothing on the livefs to take major/minor from: keep the entry
+                # as recorded (path only) rather than refusing to load it.
+                kwds["strict"] = False
             else:
                 major, minor = fs.get_major_minor(st)
                 kwds["major"] = major
